@@ -1,6 +1,10 @@
 package main
 
-import "fmt"
+import (
+	"fmt"
+	"os"
+	"strings"
+)
 
 func dumpModel(w *World, what string) {
 	for _, k := range w.Order {
@@ -29,6 +33,23 @@ func dumpModel(w *World, what string) {
 			for _, o := range sm.Obls {
 				if !o.OK {
 					fmt.Println("  FAIL", o.Rule, o.Instance, o.Detail)
+				}
+			}
+		case "inline":
+			if k != "40" {
+				continue
+			}
+			w2, notes, err := w.inlinedWorld("40", []string{"Score", "macroVector"})
+			fmt.Println("notes:", notes, "err:", err)
+			if w2 != nil {
+				for name, src := range w2.Overlay {
+					fmt.Println("=====", name)
+					lines := strings.Split(string(src), "\n")
+					for i, l := range lines {
+						if len(l) > 300 || os.Getenv("DUMP_ALL") != "" {
+							fmt.Printf("%d: %s\n", i+1, l)
+						}
+					}
 				}
 			}
 		case "kvm":
